@@ -350,7 +350,10 @@ SPEC = Spec(
         "through one first-seen, strictly increasing mapping built from an ordered "
         "collection and broadcast from the root. R09-NAMES: output names and "
         "outputs of a part come from one mapping, each name once, parts form a "
-        "chain, inputs come from the replacer."),
+        "chain, inputs come from the replacer. R09-PLACEMENT: the part bound of a "
+        "stored array is the minimum over all sends depending on it, received "
+        "arrays sit in the part of their receive; the verifier resolves a part "
+        "input against the outputs, then the receives, of all parts."),
     not_decided=(
         "The partition invariants on concrete partitions for all communication "
         "patterns (statements about run-time data structures), and acceptance by "
